@@ -197,9 +197,169 @@ def drop_else_after_return(tree):
     return tree
 
 
+
+_PURE_FUNCS = {"len", "sum", "min", "max", "abs", "float", "int", "sorted", "list", "tuple", "np.sum", "np.abs", "np.mean", "np.sqrt", "np.float32",
+               "np.int32", "np.std", "np.log2", "np.ceil"}
+
+
+def _pure(e):
+    for x in ast.walk(e):
+        if isinstance(x, ast.Call) and ast.unparse(x.func) not in _PURE_FUNCS:
+            return False
+        if isinstance(x, (ast.Lambda, ast.Yield, ast.YieldFrom, ast.Await, ast.NamedExpr, ast.Starred, ast.ListComp, ast.SetComp, ast.DictComp, ast.GeneratorExp)):
+            return False
+    return True
+
+
+def explaining_temps(tree):
+    """`f(a, <expr>, ...)` -> `tmp = <expr>; f(a, tmp, ...)`: the first non-trivial pure argument of the outermost call of a simple statement
+    is given a name, when everything evaluated before it is a plain name / constant / field read (so the order of evaluation is unchanged)"""
+    counter = [0]
+    for fn in _not_njit_functions(tree):
+        def rw(st):
+            if not isinstance(st, (ast.Assign, ast.Return, ast.Expr, ast.AugAssign)) or st.value is None or not isinstance(st.value, ast.Call):
+                return [st]
+            c = st.value
+            if isinstance(st, ast.AugAssign):
+                return [st]
+
+            def trivial(e):
+                while isinstance(e, ast.Attribute):
+                    e = e.value
+                return isinstance(e, (ast.Name, ast.Constant))
+            if not trivial(c.func):
+                return [st]
+            for k, a in enumerate(c.args):
+                if trivial(a):
+                    continue
+                if isinstance(a, (ast.BinOp, ast.Subscript, ast.Call, ast.Compare, ast.UnaryOp, ast.Tuple, ast.List)) and _pure(a):
+                    counter[0] += 1
+                    nm = f"explained_{counter[0]}"
+                    pre = ast.copy_location(ast.Assign(targets=[ast.Name(id=nm, ctx=ast.Store())], value=a), st)
+                    c.args[k] = ast.copy_location(ast.Name(id=nm, ctx=ast.Load()), a)
+                    return [pre, st]
+                return [st]
+            return [st]
+        _rewrite_blocks(fn, rw)
+    return tree
+
+
+def guard_continue(tree):
+    """last statement of a loop body `if c: S1; S2...` (no else, 2+ statements) -> `if not c: continue` followed by S1; S2..."""
+    for fn in [n for n in ast.walk(tree) if isinstance(n, ast.FunctionDef)]:
+        for L in [n for n in ast.walk(fn) if isinstance(n, (ast.For, ast.While))]:
+            if L.body and isinstance(L.body[-1], ast.If) and not L.body[-1].orelse and len(L.body[-1].body) >= 2:
+                i = L.body[-1]
+                guard = ast.copy_location(ast.If(test=ast.UnaryOp(op=ast.Not(), operand=i.test), body=[ast.Continue()], orelse=[]), i)
+                L.body = L.body[:-1] + [guard] + i.body
+    return tree
+
+
+def ifexp_to_if(tree):
+    """`x = A if c else B` -> if/else statement; `return A if c else B` -> `if c: return A` / `return B`"""
+    import copy
+    for fn in [n for n in ast.walk(tree) if isinstance(n, ast.FunctionDef)]:
+        def rw(st):
+            if isinstance(st, ast.Assign) and len(st.targets) == 1 and isinstance(st.value, ast.IfExp):
+                a = ast.copy_location(ast.Assign(targets=[copy.deepcopy(st.targets[0])], value=st.value.body), st)
+                b = ast.copy_location(ast.Assign(targets=[copy.deepcopy(st.targets[0])], value=st.value.orelse), st)
+                return [ast.copy_location(ast.If(test=st.value.test, body=[a], orelse=[b]), st)]
+            if isinstance(st, ast.Return) and isinstance(st.value, ast.IfExp):
+                return [ast.copy_location(ast.If(test=st.value.test, body=[ast.Return(value=st.value.body)], orelse=[]), st),
+                        ast.copy_location(ast.Return(value=st.value.orelse), st)]
+            return [st]
+        _rewrite_blocks(fn, rw)
+    return tree
+
+
+def if_to_ifexp(tree):
+    """`if c: x = A else: x = B` (same plain name) -> `x = A if c else B`"""
+    for fn in [n for n in ast.walk(tree) if isinstance(n, ast.FunctionDef)]:
+        def rw(st):
+            if isinstance(st, ast.If) and len(st.body) == 1 and len(st.orelse) == 1 and all(
+                    isinstance(x, ast.Assign) and len(x.targets) == 1 and isinstance(x.targets[0], ast.Name) for x in st.body + st.orelse) \
+                    and st.body[0].targets[0].id == st.orelse[0].targets[0].id:
+                return [ast.copy_location(ast.Assign(targets=[st.body[0].targets[0]],
+                                                     value=ast.IfExp(test=st.test, body=st.body[0].value, orelse=st.orelse[0].value)), st)]
+            return [st]
+        _rewrite_blocks(fn, rw)
+    return tree
+
+
+def for_to_while(tree):
+    """`for i in range(N): body` (N a plain name, i dead outside the loop and never assigned, no continue / else) -> `i = 0; while i < N: body; i += 1`"""
+    for fn in [n for n in ast.walk(tree) if isinstance(n, ast.FunctionDef)]:
+        def rw(st):
+            if isinstance(st, ast.For) and not st.orelse and isinstance(st.target, ast.Name) and isinstance(st.iter, ast.Call) and \
+                    ast.unparse(st.iter.func) == "range" and len(st.iter.args) == 1 and isinstance(st.iter.args[0], ast.Name):
+                i, N = st.target.id, st.iter.args[0].id
+                inside = {id(x) for x in ast.walk(st)}
+                if any(isinstance(x, ast.Name) and x.id == i and id(x) not in inside for x in ast.walk(fn)):
+                    return [st]
+                if any(isinstance(x, ast.Name) and x.id in (i, N) and isinstance(x.ctx, ast.Store) for b in st.body for x in ast.walk(b)):
+                    return [st]
+                if any(isinstance(x, (ast.Continue, ast.FunctionDef, ast.Lambda, ast.Yield)) for b in st.body for x in ast.walk(b)):
+                    return [st]
+                init = ast.copy_location(ast.Assign(targets=[ast.Name(id=i, ctx=ast.Store())], value=ast.Constant(value=0)), st)
+                inc = ast.AugAssign(target=ast.Name(id=i, ctx=ast.Store()), op=ast.Add(), value=ast.Constant(value=1))
+                w = ast.copy_location(ast.While(test=ast.Compare(left=ast.Name(id=i, ctx=ast.Load()), ops=[ast.Lt()], comparators=[ast.Name(id=N, ctx=ast.Load())]),
+                                                body=st.body + [inc], orelse=[]), st)
+                return [init, w]
+            return [st]
+        _rewrite_blocks(fn, rw)
+    return tree
+
+
+def keyword_args(tree, signatures=None):
+    """positional arguments of calls to package functions / methods / constructors with a package-unique name become keyword arguments
+    (all but the first one); `signatures`: name -> parameter list without the receiver, computed over the whole package"""
+    signatures = signatures or {}
+    for fn in _not_njit_functions(tree):
+        for c in [x for x in ast.walk(fn) if isinstance(x, ast.Call)]:
+            name = c.func.attr if isinstance(c.func, ast.Attribute) else (c.func.id if isinstance(c.func, ast.Name) else None)
+            ps = signatures.get(name)
+            if not ps or any(isinstance(a, ast.Starred) for a in c.args) or any(k.arg is None for k in c.keywords) or len(c.args) > len(ps) or len(c.args) < 2:
+                continue
+            used = {k.arg for k in c.keywords}
+            moved = [(ps[i], a) for i, a in enumerate(c.args)][1:]
+            if any(n in used for n, _ in moved):
+                continue
+            c.args = c.args[:1]
+            c.keywords = [ast.keyword(arg=n, value=a) for n, a in moved] + c.keywords
+    return tree
+
+
+def package_signatures(src):
+    """name -> parameters (without self/cls) for functions / methods / classes whose name is defined exactly once in the package and that
+    are plain Python (no *args, not compiled)"""
+    defs = {}
+    for p in sorted(Path(src).glob("*.py")):
+        with warnings.catch_warnings():
+            warnings.simplefilter("ignore")
+            t = ast.parse(p.read_text())
+        for c in [n for n in ast.walk(t) if isinstance(n, ast.ClassDef)]:
+            init = next((m for m in c.body if isinstance(m, ast.FunctionDef) and m.name == "__init__"), None)
+            if init is not None and not init.args.vararg and not init.args.kwarg:
+                defs.setdefault(c.name, []).append([a.arg for a in init.args.args][1:])
+            else:
+                defs.setdefault(c.name, []).append(None)
+            for m in c.body:
+                if isinstance(m, ast.FunctionDef) and not m.name.startswith("__"):
+                    static = any(ast.unparse(d).endswith("staticmethod") for d in m.decorator_list)
+                    ok = not m.args.vararg and not m.args.kwarg and not _is_njit(m) and not any("property" in ast.unparse(d) or "setter" in ast.unparse(d) for d in m.decorator_list)
+                    defs.setdefault(m.name, []).append(([a.arg for a in m.args.args][0 if static else 1:]) if ok else None)
+        for f in [n for n in t.body if isinstance(n, ast.FunctionDef)]:
+            ok = not f.args.vararg and not f.args.kwarg and not _is_njit(f)
+            defs.setdefault(f.name, []).append([a.arg for a in f.args.args] if ok else None)
+    builtin_like = {"add", "remove", "index", "copy", "get", "pop", "update", "append", "sort", "items", "keys", "values", "d", "check", "gamma"}
+    return {n: v[0] for n, v in defs.items() if len(v) == 1 and v[0] is not None and n not in builtin_like}
+
+
 TRANSFORMS = {"return_via_local": return_via_local, "split_tuple_assign": split_tuple_assign, "expand_augassign": expand_augassign,
               "listcomp_to_loop": listcomp_to_loop, "drop_else_after_return": drop_else_after_return,
-              "add_logging": add_logging, "annotate_locals": annotate_locals, "rename_self": rename_self, "flip_comparisons": flip_comparisons}
+              "add_logging": add_logging, "annotate_locals": annotate_locals, "rename_self": rename_self, "flip_comparisons": flip_comparisons,
+              "explaining_temps": explaining_temps, "guard_continue": guard_continue, "ifexp_to_if": ifexp_to_if, "if_to_ifexp": if_to_ifexp,
+              "for_to_while": for_to_while, "keyword_args": keyword_args}
 
 
 def transform_package(name, src, dst):
@@ -209,7 +369,10 @@ def transform_package(name, src, dst):
         with warnings.catch_warnings():
             warnings.simplefilter("ignore")
             tree = ast.parse(p.read_text())
-        tree = TRANSFORMS[name](tree)
+        if name == "keyword_args":
+            tree = keyword_args(tree, package_signatures(src))
+        else:
+            tree = TRANSFORMS[name](tree)
         ast.fix_missing_locations(tree)
         (dst / p.name).write_text(ast.unparse(tree) + "\n")
 
